@@ -23,6 +23,8 @@ ASSUMPTIONS = ["sources are rendered by mc/oracles/skygauss.py (gnomonic offsets
                "the autocorrelation that fit assumes (white noise convolved with the half-beam kernel); mismatched pairs are "
                "not part of the property",
                "position angle is compared modulo 180 and skipped when a/b < 1.05",
+               "the strongly elongated family of the noise block (12 x 4.5 px, fixed orientations) is judged only when one component is "
+               "returned: noise can add a second summit on the flat ridge, which Aegean fits by design",
                "no claim between lattice points"]
 
 PROJ = ["SIN", "TAN", "ZEA", "ARC", "STG"]
@@ -65,11 +67,14 @@ def cases(tier, seed):
         if rmsmode != "forced" and (real % 4 != 0):
             continue   # internal BANE on every 4th realisation (160x160 images, slower)
         yield "C", dict(real=real, mode=mode, rms=rmsmode, snr=snr, shape=list(SHAPES_T[s]))
+    # elongated sources at fixed orientations (the position-angle error depends on the orientation in pixel space)
+    for real, pa, snr in itertools.product(range(nreal if q else 40), [0.0, 35.0, 70.0], [200, 500]):
+        yield "C", dict(real=real, mode="white", rms="forced", snr=snr, shape=[3.0, 1.5], pa=pa)
 
 
 def run_finder(path, **kw):
     sf = scenes.finder()
-    return sf.find_sources_in_image(path, cores=kw.pop("cores", 1), innerclip=5, outerclip=4, **kw)
+    return sf.find_sources_in_image(path, cores=kw.pop("cores", 1), innerclip=kw.pop("innerclip", 5), outerclip=4, **kw)
 
 
 def compare_noisefree(out, truth, hdr, beam_deg, ctx, sig, what):
@@ -206,6 +211,8 @@ def ev_C(case, ctx):
     row = shape[0] / 2 - 1.5 + rs.uniform(0, 1)
     col = shape[1] / 2 + 1.5 + rs.uniform(0, 1)
     pa = rs.uniform(-85, 85)
+    if case.get("pa") is not None:
+        pa = case["pa"]
     src = skygauss.source_at_pixel(hdr, row, col, 1.0, case["shape"][0] * beam_px[0], case["shape"][1] * beam_px[1], pa)
     sigma = 1.0 / case["snr"]
     if case["mode"] == "white":
@@ -219,10 +226,13 @@ def ev_C(case, ctx):
     img = skygauss.render(hdr, shape, [src]) + sigma * noise
     f = os.path.join(d, "c01n.fits")
     scenes.write_image(f, hdr, img)
-    sig = "C:real=%d,%s,rms=%s,snr=%d,shape=%r" % (k, case["mode"], case["rms"], case["snr"], case["shape"])
+    sig = "C:real=%d,%s,rms=%s,snr=%d,shape=%r%s" % (k, case["mode"], case["rms"], case["snr"], case["shape"],
+                                                       ",pa=%g" % case["pa"] if case.get("pa") is not None else "")
     ctx.count("C")
     ctx.nontrivial(sig)
     kw = dict(docov=docov)
+    if case["snr"] > 300:
+        kw["innerclip"] = 10
     if case["rms"] == "forced":
         kw.update(rms=sigma, bkg=0.0)
     else:
@@ -235,6 +245,11 @@ def ev_C(case, ctx):
     # the injected source is the component nearest to the injected position; noise peaks elsewhere are not this clause
     near = [s for s in out if scenes.sky_sep_pix(hdr, s.ra, s.dec, src["ra"], src["dec"]) < 3]
     if len(near) != 1:
+        if case.get("pa") is not None:
+            # a strongly elongated source (12 x 4.5 pixels) has a nearly flat ridge: noise can create a second local maximum
+            # on it and Aegean fits one component per summit by design; the error-calibration clause needs a single component
+            ctx.count("elongated_source_split_by_noise_not_judged")
+            return
         ctx.violation("%d components within 3 pixels of the injected source (%s)" % (len(near), sig), "count|" + sig)
         return
     s = near[0]
